@@ -570,6 +570,7 @@ type simSource struct {
 	splits  [][]simRecord
 	batch   int
 	paceMS  int64
+	pollMS  int64
 	mu      sync.Mutex
 	readers int
 	rounds  int
@@ -683,11 +684,12 @@ func decodeCursor(b []byte) int64 {
 }
 
 type simReader struct {
-	src    *simSource
-	n      int
-	mu     sync.Mutex
-	splits []*simSplitState
-	calls  int
+	src     *simSource
+	n       int
+	mu      sync.Mutex
+	splits  []*simSplitState
+	calls   int
+	nextDue time.Duration
 }
 
 func (r *simReader) AssignSplits(splits []*workerpb.SourceSplit) error {
@@ -701,6 +703,16 @@ func (r *simReader) AssignSplits(splits []*workerpb.SourceSplit) error {
 
 func (r *simReader) ReadEvents() ([][]byte, error) {
 	simrt.Yield("source.ReadEvents")
+	// the source trickles (input spans several checkpoint intervals), but a read never
+	// blocks the runner's loop for long: like the real pollers it returns nothing after a
+	// short wait until the next records are due
+	if now := r.src.w.c.S.SimTime(); now < r.nextDue {
+		simrt.Sleep("source-poll", min(r.nextDue-now, time.Duration(r.src.pollMS)*time.Millisecond))
+		if r.src.w.c.S.SimTime() < r.nextDue {
+			return nil, nil
+		}
+	}
+	r.nextDue = r.src.w.c.S.SimTime() + time.Duration(r.src.paceMS)*time.Millisecond
 	r.mu.Lock()
 	r.calls++
 	var out [][]byte
@@ -717,9 +729,6 @@ func (r *simReader) ReadEvents() ([][]byte, error) {
 		}
 	}
 	r.mu.Unlock()
-	// the source trickles: input spans several checkpoint intervals; when caught
-	// up it is polled like the real connectors do
-	simrt.Sleep("source-pace", time.Duration(r.src.paceMS)*time.Millisecond)
 	return out, nil
 }
 
